@@ -74,6 +74,7 @@ def run(rep: Report, tier: str) -> None:
 	rule_b(rep)
 	rule_c(rep)
 	rule_d(rep)
+	rule_e(rep)
 
 
 def rule_d(rep: Report) -> None:
@@ -293,3 +294,105 @@ def rule_c(rep: Report) -> None:
 	for name in rr:
 		if name not in lr:
 			r.violate(f'extra:{name}', (PY_RULES, 1), f'py_rules.py defines `{name}`, which py_gram.lark does not')
+
+
+# ---- (e) repetition bounds per repeat kind ---------------------------------------------------------------------------------------------
+
+def rule_e(rep: Report) -> None:
+	"""SyntaxParser._match_repeat is a finite dispatch over Repeators: `*` 0..n, `+` 1..n, `?` 0..1, `[ ]` 0..1 (with an empty placeholder when absent).
+	The bounds are recomputed from the code by evaluating every test on `patterns.rep` for each member."""
+	r = rep.rule('C11/repeat-bounds', 'for each repeat kind the matcher accepts exactly the documented number of repetitions: * = 0..n, + = 1..n, ? = 0..1, [ ] = 0..1 with an empty placeholder', floor=4)
+	idx = SourceIndex()
+	m = idx.mod(SYNTAX_PY)
+	rm = idx.mod('rogw/tranp/implements/syntax/tranp/rule.py')
+	f = m.func('SyntaxParser._match_repeat')
+	members = {k: (v.value if isinstance(v, ast.Constant) else None) for k, v in rm.cls('Repeators').class_attrs.items()}
+	want = {'*': (0, 'n', False), '+': (1, 'n', False), '?': (0, 1, False)}
+	# which member is the [ ] kind: the one ASTSerializer._for_expr_opt uses
+	opt = rm.func('ASTSerializer._for_expr_opt')
+	opt_member = next((n.attr for n in ast.walk(opt.node) if isinstance(n, ast.Attribute) and isinstance(n.value, ast.Name) and n.value.id == 'Repeators'), None)
+
+	def ev(e: ast.AST, member: str):
+		"""evaluate a test over patterns.rep for `member`; None if it involves anything else"""
+		if isinstance(e, ast.Compare) and len(e.ops) == 1 and unparse(e.left) == 'patterns.rep':
+			rhs = e.comparators[0]
+			names = [x.attr for x in (rhs.elts if isinstance(rhs, (ast.List, ast.Tuple)) else [rhs]) if isinstance(x, ast.Attribute)]
+			if isinstance(e.ops[0], ast.In):
+				return member in names
+			if isinstance(e.ops[0], ast.NotIn):
+				return member not in names
+			if isinstance(e.ops[0], ast.Eq):
+				return names == [member]
+			if isinstance(e.ops[0], ast.NotEq):
+				return names != [member]
+		if isinstance(e, ast.BoolOp):
+			vs = [ev(v, member) for v in e.values]
+			if isinstance(e.op, ast.And):
+				return False if False in vs else (True if all(v is True for v in vs) else None)
+			return True if True in vs else (False if all(v is False for v in vs) else None)
+		return None
+
+	loop = next((n for n in f.node.body if isinstance(n, ast.While)), None)
+	zero = next((n for n in f.node.body if isinstance(n, ast.If) and unparse(n.test) == 'found == 0'), None)
+	if loop is None or zero is None:
+		r.undecided('shape', f.where, '_match_repeat no longer has the shape `while ...: match; ... if found == 0: ...`')
+		return
+	# local limits assigned before the loop: name -> IfExp over patterns.rep
+	limits = {n.targets[0].id: n.value for n in f.node.body if isinstance(n, ast.Assign) and isinstance(n.targets[0], ast.Name)}
+
+	def max_reps(member: str):
+		# a break at the end of the body whose guard is true for this member
+		for s_ in loop.body:
+			if isinstance(s_, ast.If) and any(isinstance(x, ast.Break) for x in s_.body) and ev(s_.test, member) is True and 'found' not in unparse(s_.test) and 'in_step' not in unparse(s_.test):
+				return 1
+		# loop test `found < limit`
+		for c in ast.walk(loop.test):
+			if isinstance(c, ast.Compare) and unparse(c.left) == 'found' and isinstance(c.ops[0], ast.Lt) and isinstance(c.comparators[0], ast.Name) and c.comparators[0].id in limits:
+				lv = limits[c.comparators[0].id]
+				if isinstance(lv, ast.IfExp):
+					t = ev(lv.test, member)
+					val = lv.body if t is True else (lv.orelse if t is False else None)
+					if isinstance(val, ast.Constant):
+						return val.value
+					return 'n' if val is not None else None
+				if isinstance(lv, ast.Constant):
+					return lv.value
+		return 'n'
+
+	def min_reps(member: str):
+		cur = zero.body
+		# if/elif chain inside `if found == 0`
+		node = cur[0] if cur and isinstance(cur[0], ast.If) else None
+		while isinstance(node, ast.If):
+			t = ev(node.test, member)
+			if t is True:
+				ret = next((x for x in ast.walk(ast.Module(body=node.body, type_ignores=[])) if isinstance(x, ast.Return)), None)
+				src = unparse(ret.value) if ret else ''
+				return (0, 'empty()' in src) if 'Step.ok' in src else (1, False)
+			if t is None:
+				return None
+			nxt = node.orelse
+			if len(nxt) == 1 and isinstance(nxt[0], ast.If):
+				node = nxt[0]
+			else:
+				ret = next((x for x in ast.walk(ast.Module(body=nxt, type_ignores=[])) if isinstance(x, ast.Return)), None)
+				src = unparse(ret.value) if ret else ''
+				return (0, 'empty()' in src) if 'Step.ok' in src else (1, False)
+		return None
+
+	for member, sym in members.items():
+		if member == 'NoRepeat' or sym is None:
+			continue
+		exp = want.get(sym)
+		if member == opt_member:
+			exp = (0, 1, True)
+		if exp is None:
+			r.undecided(f'{member}', f.where, f'unknown repeat kind {member} = {sym!r}')
+			continue
+		mn = min_reps(member)
+		mx = max_reps(member)
+		if mn is None or mx is None:
+			r.undecided(f'{member}', f.where, f'cannot evaluate the bounds of {member}')
+			continue
+		got = (mn[0], mx, mn[1])
+		r.check(got == exp, f'{member} ({sym})', f.where, f'repeat kind {member} (`{sym}`{" / [ ]" if member == opt_member else ""}) accepts min {got[0]}, max {got[1]} repetitions (empty placeholder: {got[2]}); the meta-grammar means min {exp[0]}, max {exp[1]} (placeholder: {exp[2]}): text that repeats an optional group (e.g. `f(a b)`) would be accepted', unparse(loop)[:160])
